@@ -638,6 +638,19 @@ def run(cx, rep):
                 if wc and not rets:
                     rep.ob("C13.3", "%s/both-branches-tagged" % cname, False,
                            "%s.hash256: an optional part is written under `if` without an else branch; absence must be encoded too" % cname, cm.loc(n))
+            # the same through expression-level conditionals: `this.rest?.hash256(ctx)`, `x && x.hash256(ctx)`,
+            # `c ? w.updateTag(..) : undefined`
+            def writes(e_):
+                return [x for x in walk(e_) if x["type"] == "CallExpression" and method_call(x) and (method_call(x)[1].startswith("update") or method_call(x)[1] == "hash256")]
+            if n["type"] == "OptionalChainingExpression" and n.get("base", {}).get("type") == "CallExpression" and re.search(r"\?\.\s*(hash256|update\w*)\s*\(|\.(hash256|update\w*)\s*\?\.\s*\(", cm.text(n) or ""):
+                rep.ob("C13.3", "%s/both-branches-tagged" % cname, False,
+                       "%s.hash256: an optional part is written through optional chaining (`%s`): when it is absent nothing is written, so the encoding of the absent case is a prefix of other encodings; absence must be encoded too" % (cname, s(n)[:50]), cm.loc(n))
+            if n["type"] == "BinaryExpression" and n["operator"] in ("&&", "||", "??") and writes(n["right"]):
+                rep.ob("C13.3", "%s/both-branches-tagged" % cname, False,
+                       "%s.hash256: an optional part is written under a short-circuit operator (`%s`); absence must be encoded too" % (cname, s(n)[:50]), cm.loc(n))
+            if n["type"] == "ConditionalExpression" and (bool(writes(n["consequent"])) != bool(writes(n["alternate"]))):
+                rep.ob("C13.3", "%s/both-branches-tagged" % cname, False,
+                       "%s.hash256: an optional part is written on one branch of `?:` only; absence must be encoded too" % cname, cm.loc(n))
     rep.floor("C13.2", "classes with hash256()", n_cls, 20)
     for t, cs in sorted(tags.items()):
         rep.ob("C13.3", "tag/%s" % t, len(cs) == 1, "tag %r is written by several classes %s: their encodings are not prefix-free" % (t, sorted(cs)), cm.rel,
